@@ -38,8 +38,49 @@ class _Norm(ast.NodeTransformer):
         return n
 
 
+_CONST_NAME = re.compile(r"^_?[A-Z][A-Z0-9_]*$")
+
+
+def _is_numeric_const_expr(e) -> bool:
+    """a number, a module constant (ALL_CAPS name) or +,-,* arithmetic over those"""
+    if isinstance(e, ast.Constant):
+        return isinstance(e.value, (int, float)) and not isinstance(e.value, bool)
+    if isinstance(e, ast.Name):
+        return bool(_CONST_NAME.match(e.id))
+    if isinstance(e, ast.BinOp) and isinstance(e.op, (ast.Add, ast.Sub, ast.Mult, ast.Pow)):
+        return _is_numeric_const_expr(e.left) and _is_numeric_const_expr(e.right)
+    if isinstance(e, ast.UnaryOp) and isinstance(e.op, ast.USub):
+        return _is_numeric_const_expr(e.operand)
+    return False
+
+
+def _canon_compare(c: ast.Compare) -> ast.Compare:
+    """`x > K` and `x >= K'` (K, K' constant expressions) have the same shape once the value is abstracted: the bound
+    becomes N and the strictness is dropped, so a sibling that writes the same bound differently still matches."""
+    if len(c.ops) != 1:
+        return c
+    l, r, op = c.left, c.comparators[0], c.ops[0]
+    soft = {ast.Gt: ast.GtE, ast.Lt: ast.LtE}
+    if _is_numeric_const_expr(r) and not (isinstance(r, ast.Constant) and r.value in (0, 1)) and not _is_numeric_const_expr(l):
+        return ast.Compare(left=l, ops=[soft.get(type(op), type(op))()], comparators=[ast.Name(id="N", ctx=ast.Load())])
+    if _is_numeric_const_expr(l) and not (isinstance(l, ast.Constant) and l.value in (0, 1)) and not _is_numeric_const_expr(r):
+        return ast.Compare(left=ast.Name(id="N", ctx=ast.Load()), ops=[soft.get(type(op), type(op))()], comparators=[r])
+    return c
+
+
 def normalise(e, rename) -> str:
     return ast.unparse(_Norm(rename).visit(copy.deepcopy(e)))
+
+
+def soft_form(c: ast.Compare, rename):
+    """(text with the constant bound abstracted and its strictness dropped, True when the bound is a composite
+    constant expression) - used only to pair up tests that differ in how one sibling spells the same bound"""
+    if not isinstance(c, ast.Compare) or len(c.ops) != 1:
+        return None, False
+    k = c.comparators[0] if _is_numeric_const_expr(c.comparators[0]) else c.left if _is_numeric_const_expr(c.left) else None
+    if k is None:
+        return None, False
+    return ast.unparse(_Norm(rename).visit(_canon_compare(copy.deepcopy(c)))), isinstance(k, (ast.BinOp, ast.UnaryOp))
 
 
 def features(fi: FuncInfo, rename):
@@ -79,6 +120,21 @@ def compare_twins(rr: RuleResult, fa: FuncInfo, fb: FuncInfo, rename, exceptions
     pair = f"{fa.name}~{fb.name}"
     rr.inst(f"{pair}:tests", True, {"pair": pair, "tests_a": [t for t, _ in ta][:6], "tests_b": [t for t, _ in tb][:6]})
     oa, ob = _diff([t for t, _ in ta], [t for t, _ in tb])
+    # a bound that one sibling spells as a composite constant expression (`>= START + SIZE`) pairs with the other's
+    # literal spelling (`> 255`) when the two tests have the same shape once bound and strictness are abstracted;
+    # the values themselves are compared by the table rules
+    for t in list(oa):
+        na = next(n for x, n in ta if x == t)
+        sa, ca_ = soft_form(na, rename)
+        if sa is None:
+            continue
+        for u in list(ob):
+            nb = next(n for x, n in tb if x == u)
+            sb, cb_ = soft_form(nb, rename)
+            if sb == sa and (ca_ or cb_):
+                oa.remove(t)
+                ob.remove(u)
+                break
     for side, only, src, fi, other in (("first", oa, ta, fa, fb), ("second", ob, tb, fb, fa)):
         for t in only:
             key = f"{pair}:test:{t}"
